@@ -211,10 +211,10 @@ def driver_rules(N, rnd):
     rv = lambda: [Fraction(rnd.choice([-2, -1, -1, 1, 1, 2, 3]), rnd.choice([1, 2])) for _ in range(N)]
     return [lambda g: g,
             lambda g: mkf('Translate', u=rv(), args=[g]),
-            lambda g: mkf('ArgScale', rnd.choice([(2, 1), (-1, 2), (3, 2), (-1, 1)]), args=[g]),
-            lambda g: mkf('LScale', rnd.choice([(2, 1), (1, 2), (3, 1), (5, 2)]), args=[g]),
+            lambda g: mkf('ArgScale', rnd.choice([(2, 1), (-1, 2), (-1, 1)]), args=[g]),
+            lambda g: mkf('LScale', rnd.choice([(2, 1), (1, 2), (4, 1)]), args=[g]),
             lambda g: mkf('AddConst', 0, -2, args=[g]),
-            lambda g: mkf('QuadPert', rnd.choice([(1, 2), (1, 1), (3, 2)]), 1, u=rv(), args=[g]),
+            lambda g: mkf('QuadPert', rnd.choice([(1, 2), (3, 2)]), 1, u=rv(), args=[g]),
             lambda g: mkf('QuadPert', 0, 0, u=rv(), args=[g]),
             lambda g: mkf('Conj', args=[g]),
             lambda g: mkf('Bregman', v=rv(), u=rv(), args=[g])]
@@ -376,7 +376,7 @@ def driver_program(arg):
         if xi < len(fixed):
             sgs = [Fraction(1, 2), Fraction(2)] if nrand > 4 else [[Fraction(1, 2), Fraction(2)][xi % 2]]
         else:
-            sgs = [rnd.choice([Fraction(1, 4), Fraction(1, 2), 1, Fraction(3, 2), 2, 3])]
+            sgs = [rnd.choice([Fraction(1, 4), Fraction(1, 2), 1, 2, 4])]
         sigs = [([fu.qj(sg)] * N, 's') for sg in sgs]
         if fname in VEC_SIGMA_FACTORIES and xi < len(fixed) and xi % 2 == 0:
             sigs.append((vecsig, 'v'))
@@ -455,8 +455,31 @@ def run(ctx):
     ctx.extra['programs_with_prox_cases'] = sum(1 for r in progs if r['cases'])
     per_case = 1 if quick else 2
     args = [(r, ctx.seed, per_case if r['k'] <= 1 else 1, True) for r in progs if r['cases']]
+    sink = fu.EventSink(ctx, 'c07')
+    classes = set()
+    tot = {'dropped': 0, 'noprox': 0, 'rounding': 0, 'replayed': 0, 'driver_events': 0}
+
+    def absorb(o, driver):
+        for sig, det in o['viol']:
+            fu.report(ctx, sig, det)
+        for key, nt in o['counts']:
+            ctx.count(key, nt)
+        for ev, det in o['events']:
+            sink.add(ev, det)
+        classes.update(o['classes'])
+        tot['dropped'] += o.get('dropped', 0)
+        tot['noprox'] += o['noprox']
+        tot['rounding'] += o.get('rounding', 0)
+        tot['driver_events' if driver else 'replayed'] += len(o['counts'])
+        for d in o.get('drift', []):
+            if d not in ctx.drift:
+                ctx.drift_note(d)
+        for s in o.get('samples', []):
+            if len(ctx.samples) < 5 and (len(ctx.samples) == 0 or s['program'] != ctx.samples[-1]['program']):
+                ctx.sample(s)
     with mp.Pool(min(14, os.cpu_count() or 4)) as pool:
-        outs = pool.map(replay_program, args, chunksize=4)
+        for o in pool.imap(replay_program, args, chunksize=4):
+            absorb(o, False)
         # ---- driver beyond the TLC constants
         dargs = []
         drnd = random.Random(ctx.seed * 7919 + 7)
@@ -468,52 +491,30 @@ def run(ctx):
                 picks = rules if not quick else [rules[0]] + drnd.sample(rules[1:], 2)
                 for rule in picks:
                     prog = rule(leaf)
-                    if prog['op'] == 'Bregman' and fu.first_leaf(prog) not in FINITE_LEAVES:
+                    if prog['op'] == 'Bregman' and not all(o in FINITE_LEAVES or o in ('Bregman', 'SepSum')
+                                                           for o in fu.ops_of(prog)):
                         continue           # the reference point of a Bregman distance must lie in dom f
                     dargs.append((spd, prog, ctx.seed, 2 if quick else 8))
             for fname, prog in factory_programs(kind, m, N):
                 if kind in ('rn', 'discr', 'power') and (not quick or n <= 3):
                     dargs.append((spd, prog, ctx.seed, 2 if quick else 8, fname))
-        douts = pool.map(driver_program, dargs, chunksize=4)
-        douts += pool.map(opaque_program, [(i, ctx.seed, 2 if quick else 10) for i in range(len(opaque_recipes()))])
+        for o in pool.imap(driver_program, dargs, chunksize=4):
+            absorb(o, True)
+        for o in pool.imap(opaque_program, [(i, ctx.seed, 2 if quick else 10) for i in range(len(opaque_recipes()))]):
+            absorb(o, True)
     stage['replay_and_driver'] = round(time.time() - t0 - stage['tlc_model_export'], 1)
-    events, details = [], []
-    classes = set()
-    dropped = noprox = rounding = 0
-    replayed_fams = set()
-    for o in outs + douts:
-        for sig, det in o['viol']:
-            fu.report(ctx, sig, det)
-            replayed_fams.add((sig['leaf'], sig['clause']))
-        for key, nt in o['counts']:
-            ctx.count(key, nt)
-        for ev, det in o['events']:
-            ev['id'] = len(events)
-            events.append(ev)
-            details.append(det)
-        classes |= o['classes']
-        dropped += o.get('dropped', 0)
-        noprox += o['noprox']
-        rounding += o.get('rounding', 0)
-        for d in o.get('drift', []):
-            if d not in ctx.drift:
-                ctx.drift_note(d)
-        for s in o.get('samples', []):
-            if len(ctx.samples) < 5 and (len(ctx.samples) == 0 or s['program'] != ctx.samples[-1]['program']):
-                ctx.sample(s)
-    ctx.traces += sum(len(o['counts']) for o in outs)
-    ctx.extra['cases_dropped_prox_not_on_lattice'] = dropped
-    ctx.extra['programs_without_proximal'] = noprox
-    ctx.extra['f(p)_infinite_only_by_rounding'] = rounding
+    ctx.traces += tot['replayed'] + tot['driver_events']
+    ctx.extra['cases_dropped_prox_not_on_lattice'] = tot['dropped']
+    ctx.extra['programs_without_proximal'] = tot['noprox']
+    ctx.extra['f(p)_infinite_only_by_rounding'] = tot['rounding']
     ctx.extra['driver_programs'] = len(dargs)
 
     # ---- trace validation by TLC
-    fails = fu.validate_events(ctx, [dict((k, v) for k, v in e.items() if k != 'tag') for e in events], 'c07')
+    fails = sink.validate()
     stage['tlc_trace_validation'] = round(time.time() - t0 - stage['tlc_model_export'] - stage['replay_and_driver'], 1)
     ctx.extra['stage_wall_s'] = stage
-    nrej = 0
     for eid, clauses in sorted(fails.items()):
-        ev, det = events[eid], details[eid]
+        ev, det = sink.get(eid)
         f = det['f']
         for cl in clauses:
             if cl == 'value':
@@ -523,7 +524,6 @@ def run(ctx):
                 continue
             if cl == 'not-the-minimiser(subgradient)' and 'value' in clauses:
                 continue          # the implementation's f is not the reference f here: no verdict from the certificate
-            nrej += 1
             extra = {'sigma': 'scalar' if ev.get('sk', 's') == 's' else 'vector'} if ev['k'] in ('prox', 'probe') else {}
             d = dict(det)
             d['stage'] = 'trace:' + det['stage']
@@ -537,8 +537,8 @@ def run(ctx):
             if det.get('factory'):
                 extra['factory'] = det['factory']
             fu.report(ctx, fu.signature(det['sp'], f, cl, extra), d)
-    ctx.traces += sum(1 for e in events if e.get('tag') == 'driver')
-    ctx.extra['trace_events_validated_by_tlc'] = len(events)
+    ctx.extra['trace_events_validated_by_tlc'] = sink.n
+    ctx.extra['trace_events_by_kind'] = sink.kinds
     ctx.extra['trace_events_rejected_by_tlc'] = len(fails)
     fu.design_drift(ctx, design, ctx.extra.get('_ops', []))
     fu.uncovered_report(ctx, classes)
